@@ -491,7 +491,10 @@ func nestedShrinks(envOld, envNew *schema.Env, ty schema.Ty, v Val, top bool) bo
 			if v.K != KStruct || len(v.Elems) != len(d.Fields) {
 				return false
 			}
-			if !top && Restrict(envOld, envNew, ty, v).String() != v.String() {
+			// the reader's Size() of what it decodes differs from the bytes on the wire when a message below
+			// loses a field under the old schema, or carries a field the old schema marks deprecated (Size()
+			// skips those)
+			if !top && (Restrict(envOld, envNew, ty, v).String() != v.String() || holdsDeprecated(envOld, envNew, ty, v)) {
 				return true
 			}
 			for i, e := range v.Elems {
@@ -520,6 +523,65 @@ func nestedShrinks(envOld, envNew *schema.Env, ty schema.Ty, v Val, top bool) bo
 			for _, b := range d.Branches {
 				if b.Disc == v.Disc {
 					return nestedShrinks(envOld, envNew, schema.Ty{K: schema.TyRef, Ref: b.Ref}, v.Elems[0], false)
+				}
+			}
+		}
+	}
+	return false
+}
+
+// holdsDeprecated: does v (typed by envNew) contain a message field that envOld marks deprecated?
+func holdsDeprecated(envOld, envNew *schema.Env, ty schema.Ty, v Val) bool {
+	switch ty.K {
+	case schema.TyArr, schema.TyMap:
+		for _, e := range v.Elems {
+			if holdsDeprecated(envOld, envNew, *ty.Elem, e) {
+				return true
+			}
+		}
+	case schema.TyRef:
+		if ty.Ref >= len(envNew.Defs) {
+			return false
+		}
+		d := envNew.Defs[ty.Ref]
+		switch d.Kind {
+		case schema.Struct:
+			if v.K != KStruct || len(v.Elems) != len(d.Fields) {
+				return false
+			}
+			for i, e := range v.Elems {
+				if holdsDeprecated(envOld, envNew, d.Fields[i].Ty, e) {
+					return true
+				}
+			}
+		case schema.Message:
+			if v.K != KMsg {
+				return false
+			}
+			for i, e := range v.Elems {
+				if ty.Ref < len(envOld.Defs) {
+					for _, o := range envOld.Defs[ty.Ref].Fields {
+						if o.Idx == v.Idx[i] && o.Deprecated {
+							return true
+						}
+					}
+				}
+				for _, fd := range d.Fields {
+					if fd.Idx == v.Idx[i] {
+						if holdsDeprecated(envOld, envNew, fd.Ty, e) {
+							return true
+						}
+						break
+					}
+				}
+			}
+		case schema.Union:
+			if v.K != KUnion || len(v.Elems) != 1 {
+				return false
+			}
+			for _, b := range d.Branches {
+				if b.Disc == v.Disc {
+					return holdsDeprecated(envOld, envNew, schema.Ty{K: schema.TyRef, Ref: b.Ref}, v.Elems[0])
 				}
 			}
 		}
